@@ -4,10 +4,12 @@
 // The store runs on a mock clock; miniredis' notion of time is kept in step with it (SetTime before
 // every command, FastForward on every advance), so window expiry is deterministic.
 //
-// cfg.v6: the bulk of the histories (v6=false) announces IPv4 addresses and host names only; a few
-// dedicated histories (v6=true) also announce IPv6 addresses, which the unchanged tree drops (known
-// finding F28).  One history per kind exercises the member codec alone over many addresses (for v6:
-// every address of 1..8 tokens over an empty and a non-empty token, i.e. 0..7 colons).
+// Every store history announces IPv4 addresses, host names and IPv6 addresses (full, compressed, zoned,
+// v4-mapped).  Until /repo commit 3bed7ac the store dropped every peer whose address contains ':'
+// (finding F28); cfg.v6 and the v6 fields remain in the records because the signature in
+// known_findings.d/C28.json refers to them.  Two more histories exercise the member codec alone: one over
+// host names and odd strings, one over every address of 1..8 tokens over an empty and a non-empty token
+// (0..7 colons).
 package c28
 
 import (
@@ -40,7 +42,7 @@ func toks(ip string) []string { return strings.Split(ip, ":") }
 
 func run(c *eng.Ctx) error {
 	w := trk.NewWorld(nh, np, 0, 0)
-	nBulk, nV6 := c.N(70, 1200), c.N(2, 8)
+	nBulk, nV6 := 0, c.N(72, 1208)
 	total := nBulk + nV6 + 2 // + one codec history per kind
 	var fail error
 	c.Traces(total, func(t int, rng *rand.Rand) {
@@ -74,7 +76,7 @@ func run(c *eng.Ctx) error {
 		c.W.Reset(t, map[string]any{"w": W, "m": M, "v6": isV6, "mode": "store"})
 		addrs := plain
 		if isV6 {
-			addrs = append(append([]string{}, plain[:2]...), v6...)
+			addrs = append(append([]string{}, plain...), v6...)
 		}
 		sawV6 := map[int]bool{}
 		hmax := 1 + rng.Intn(nh)
